@@ -244,155 +244,6 @@ func c14prefilters(c *Ctx, info *types.Info, sc *fnScope, fd *ast.FuncDecl, name
 	}
 }
 
-func c14closer(c *Ctx, info *types.Info, f *types.Func) {
-	fd := c.P.Decl(f)
-	name := c.P.FuncName(f)
-	ps := paramVars(info, fd.Type)
-	if len(ps) != 1 || ps[0] == nil {
-		c.Unk("C14.R2", name, fd.Pos(), "unexpected signature")
-		return
-	}
-	var problems []string
-	prob := func(pos token.Pos, m string) { problems = append(problems, m) }
-	closed := copyLoops(info, newFnScope(info, fd.Body), ps[0], fd, true, prob)
-	if len(problems) > 0 {
-		c.Bad("C14.R2", name, fd.Pos(), "%s", problems[0])
-	} else if !closed {
-		c.Bad("C14.R2", name, fd.Pos(), "the converter does not append exactly one closing vertex, yet Clip strips one")
-	} else {
-		c.OK("C14.R2", name, fd.Pos(), "appends exactly one vertex per contour")
-	}
-}
-
-// c14subject: e is Polygon{Path(recv)} or a Polygon filled by an identity copy of recv's lines.
-func c14subject(info *types.Info, sc *fnScope, fd *ast.FuncDecl, e ast.Expr, recv types.Object) string {
-	e = unparen(e)
-	if lit, ok := e.(*ast.CompositeLit); ok {
-		if len(lit.Elts) != 1 || objOf(info, sc.canon(lit.Elts[0])) != recv {
-			return "`" + src(lit) + "` is not the single contour of the receiver"
-		}
-		return ""
-	}
-	o := objOf(info, e)
-	if o == nil {
-		return "`" + src(e) + "` not recognised"
-	}
-	// first definition: make(Polygon, len(recv)); filled in a full-range loop: o[i] = Path(l)
-	okMake, okFill := false, false
-	msg := ""
-	for _, d := range sc.defs[o] {
-		if call, ok := unparen(d).(*ast.CallExpr); ok && d != nil && builtinName(info, call) == "make" && len(call.Args) >= 2 {
-			af := sc.aff(call.Args[1])
-			if af.ok && af.K == 0 && af.Of != nil && objOf(info, af.Of) == recv {
-				okMake = true
-			} else {
-				msg = "contour list allocated with `" + src(call.Args[1]) + "`, not one entry per line"
-			}
-		}
-	}
-	for _, st := range fd.Body.List {
-		l := sc.loopOf(st)
-		if l == nil {
-			continue
-		}
-		for _, bs := range l.Body.List {
-			as, ok := bs.(*ast.AssignStmt)
-			if !ok || len(as.Lhs) != 1 {
-				continue
-			}
-			ix, ok := unparen(as.Lhs[0]).(*ast.IndexExpr)
-			if !ok || objOf(info, ix.X) != o {
-				continue
-			}
-			full := l.Lo.K == 0 && l.Lo.Of == nil && l.Hi.K == 0 && l.Hi.Of != nil && objOf(info, l.Hi.Of) == recv
-			off, okOff := sc.idxOffset(ix.Index, l.Idx)
-			val := sc.canon(as.Rhs[0])
-			okVal := (l.Val != nil && objOf(info, val) == l.Val) || isRecvElem(info, val, recv, l.Idx)
-			brk, cont, _ := earlyExits(l.Body)
-			if full && okOff && off == 0 && okVal && len(brk)+len(cont) == 0 {
-				okFill = true
-			} else {
-				msg = "lines are not copied one-to-one into the subject contours (`" + src(as) + "` in loop " + l.String() + ")"
-			}
-		}
-	}
-	if msg != "" {
-		return msg
-	}
-	if !okMake || !okFill {
-		return "subject is not built from every line of the receiver"
-	}
-	return ""
-}
-
-// c14strip: out := make(MultiLineString, len(res)); for i, pp := range res { out[i] = LineString(pp[0:len(pp)-1]) }
-func c14strip(info *types.Info, sc *fnScope, fd *ast.FuncDecl, res types.Object) string {
-	if res == nil {
-		return "clipper result variable not found"
-	}
-	found := false
-	msg := ""
-	for _, st := range fd.Body.List {
-		l := sc.loopOf(st)
-		if l == nil || l.Hi.Of == nil || objOf(info, l.Hi.Of) != res {
-			continue
-		}
-		if !(l.Lo.K == 0 && l.Lo.Of == nil && l.Hi.K == 0) {
-			return "loop " + l.String() + " does not cover every returned piece"
-		}
-		brk, cont, _ := earlyExits(l.Body)
-		if len(brk)+len(cont) > 0 {
-			return "piece loop has break/continue"
-		}
-		for _, bs := range l.Body.List {
-			as, ok := bs.(*ast.AssignStmt)
-			if !ok || len(as.Lhs) != 1 || len(as.Rhs) != 1 {
-				continue
-			}
-			ix, ok := unparen(as.Lhs[0]).(*ast.IndexExpr)
-			if !ok {
-				continue
-			}
-			if off, ok := sc.idxOffset(ix.Index, l.Idx); !ok || off != 0 {
-				msg = "piece stored at `" + src(ix.Index) + "`, not at its own index"
-				continue
-			}
-			se, ok := unparen(sc.canon(as.Rhs[0])).(*ast.SliceExpr)
-			if !ok {
-				msg = "piece `" + src(as.Rhs[0]) + "` is not a reslice of the clipper's contour: the closing vertex added by the converter is not stripped"
-				continue
-			}
-			isElem := (l.Val != nil && objOf(info, se.X) == l.Val) || isRecvElem(info, se.X, res, l.Idx)
-			if !isElem {
-				msg = "piece is not taken from the current contour"
-				continue
-			}
-			if se.Low != nil {
-				if k, ok := constInt(info, se.Low); !ok || k != 0 {
-					msg = "piece starts at `" + src(se.Low) + "`, dropping leading vertices"
-					continue
-				}
-			}
-			hi := Aff{}
-			if se.High != nil {
-				hi = sc.aff(se.High)
-			}
-			if !(hi.ok && hi.K == -1 && hi.Of != nil && sameExpr(info, hi.Of, se.X)) {
-				msg = "piece ends at `" + src(se.High) + "`, want len-1 (strip exactly the one closing vertex)"
-				continue
-			}
-			found = true
-		}
-	}
-	if msg != "" {
-		return msg
-	}
-	if !found {
-		return "no loop turning every clipper contour into a line string found"
-	}
-	return ""
-}
-
 func c14dep(c *Ctx) {
 	dep := c.P.Dep(polyclipPath)
 	if dep == nil || len(dep.Syntax) == 0 {
